@@ -370,7 +370,22 @@ func (d *dagStoreImpl) Rename(oldID, newID string) error {
 		return fmt.Errorf("%w: %s", errDAGFileAlreadyExists, newLoc)
 	}
 	verifPoint("rename.checked", newLoc)
-	return os.Rename(oldLoc, newLoc)
+	if newLoc == oldLoc {
+		return os.Rename(oldLoc, newLoc)
+	}
+	// rename(2) would replace a definition that was created under the new
+	// name since the check above. Linking refuses an existing name; where
+	// hard links are not available, fall back to the rename.
+	switch err := os.Link(oldLoc, newLoc); {
+	case err == nil:
+		return os.Remove(oldLoc)
+	case errors.Is(err, fs.ErrExist):
+		return fmt.Errorf("%w: %s", errDAGFileAlreadyExists, newLoc)
+	case errors.Is(err, fs.ErrNotExist):
+		return err
+	default:
+		return os.Rename(oldLoc, newLoc)
+	}
 }
 
 func (d *dagStoreImpl) Find(name string) (*dag.DAG, error) {
